@@ -1,0 +1,271 @@
+//! Verification hooks (only compiled with the `verif-hooks` cargo feature).
+//!
+//! Process-global overrides (clock, reconciliation parameters, transaction age) and thin public
+//! forwards to otherwise private routines, used by the external property-based test harness.
+use std::sync::atomic::{AtomicI64, AtomicU64, AtomicUsize, Ordering};
+
+static CLOCK: AtomicU64 = AtomicU64::new(0);
+pub fn set_clock(t: Option<u64>) {
+    CLOCK.store(t.unwrap_or(0), Ordering::SeqCst)
+}
+pub fn clock() -> Option<u64> {
+    match CLOCK.load(Ordering::SeqCst) {
+        0 => None,
+        t => Some(t),
+    }
+}
+
+static SPLIT: AtomicUsize = AtomicUsize::new(0);
+static MAXSET: AtomicUsize = AtomicUsize::new(0);
+pub fn set_sync_config(c: Option<(usize, usize)>) {
+    let (s, m) = c.unwrap_or((0, 0));
+    SPLIT.store(s, Ordering::SeqCst);
+    MAXSET.store(m, Ordering::SeqCst)
+}
+pub fn sync_config() -> Option<(usize, usize)> {
+    match SPLIT.load(Ordering::SeqCst) {
+        0 => None,
+        s => Some((s, MAXSET.load(Ordering::SeqCst))),
+    }
+}
+
+static ACCESSES: AtomicU64 = AtomicU64::new(0);
+static ARMED_AT: AtomicI64 = AtomicI64::new(-1);
+pub fn reset_accesses() {
+    ACCESSES.store(0, Ordering::SeqCst)
+}
+pub fn accesses() -> u64 {
+    ACCESSES.load(Ordering::SeqCst)
+}
+pub fn arm_age_at(k: Option<u64>) {
+    ARMED_AT.store(k.map(|k| k as i64).unwrap_or(-1), Ordering::SeqCst)
+}
+pub fn on_store_access() -> bool {
+    let n = ACCESSES.fetch_add(1, Ordering::SeqCst) + 1;
+    ARMED_AT.load(Ordering::SeqCst) == n as i64
+}
+
+pub use crate::engine::verif_engine as engine;
+pub use crate::net::verif_net as net;
+
+// ---- H6: adapter that lets an external ordered-map backend be driven by the crate's reconciliation routine
+use crate::{
+    ranger::{self, Fingerprint, InsertOutcome, Range, RangeEntry, SyncConfig},
+    sync::{ProtocolMessage, Record, RecordIdentifier, SignedEntry},
+    ContentStatus,
+};
+
+/// Ordered-map primitives, implemented outside the crate.
+pub trait MapBackend {
+    fn first_id(&mut self) -> Option<RecordIdentifier>;
+    /// entries with x <= id < y (x<y), all (x==y), or id < y || id >= x (x>y), ascending
+    fn range(&mut self, x: &RecordIdentifier, y: &RecordIdentifier) -> Vec<SignedEntry>;
+    fn put_row(&mut self, e: SignedEntry);
+    /// entries (same namespace+author) whose key is a prefix of (or equal to) id's key, shortest first
+    fn prefixes_of(&mut self, id: &RecordIdentifier) -> Vec<SignedEntry>;
+    /// remove entries (same namespace+author) whose key starts with id's key and for which pred holds
+    fn remove_prefixed(
+        &mut self,
+        id: &RecordIdentifier,
+        pred: &dyn Fn(u64, &[u8; 32]) -> bool,
+    ) -> usize;
+}
+
+#[derive(Debug)]
+pub struct Adapter<B>(pub B);
+
+impl<B: MapBackend> ranger::Store<SignedEntry> for Adapter<B> {
+    type Error = anyhow::Error;
+    type RangeIterator<'a>
+        = std::vec::IntoIter<anyhow::Result<SignedEntry>>
+    where
+        B: 'a;
+    type ParentIterator<'a>
+        = std::vec::IntoIter<anyhow::Result<SignedEntry>>
+    where
+        B: 'a;
+    fn get_first(&mut self) -> anyhow::Result<RecordIdentifier> {
+        Ok(self.0.first_id().unwrap_or_default())
+    }
+    fn get_fingerprint(&mut self, range: &Range<RecordIdentifier>) -> anyhow::Result<Fingerprint> {
+        let mut fp = Fingerprint::empty();
+        for e in self.0.range(range.x(), range.y()) {
+            fp ^= e.as_fingerprint();
+        }
+        Ok(fp)
+    }
+    fn entry_put(&mut self, entry: SignedEntry) -> anyhow::Result<()> {
+        self.0.put_row(entry);
+        Ok(())
+    }
+    fn get_range(
+        &mut self,
+        range: Range<RecordIdentifier>,
+    ) -> anyhow::Result<Self::RangeIterator<'_>> {
+        Ok(self
+            .0
+            .range(range.x(), range.y())
+            .into_iter()
+            .map(Ok)
+            .collect::<Vec<_>>()
+            .into_iter())
+    }
+    fn prefixes_of(&mut self, key: &RecordIdentifier) -> anyhow::Result<Self::ParentIterator<'_>> {
+        Ok(self
+            .0
+            .prefixes_of(key)
+            .into_iter()
+            .map(Ok)
+            .collect::<Vec<_>>()
+            .into_iter())
+    }
+    fn remove_prefix_filtered(
+        &mut self,
+        prefix: &RecordIdentifier,
+        predicate: impl Fn(&Record) -> bool,
+    ) -> anyhow::Result<usize> {
+        Ok(self.0.remove_prefixed(prefix, &|ts, hash| {
+            predicate(&Record::new(
+                (*hash).into(),
+                if *hash == *iroh_blobs::Hash::EMPTY.as_bytes() {
+                    0
+                } else {
+                    1
+                },
+                ts,
+            ))
+        }))
+    }
+    #[cfg(test)]
+    fn get(&mut self, _key: &RecordIdentifier) -> anyhow::Result<Option<SignedEntry>> {
+        unimplemented!()
+    }
+    #[cfg(test)]
+    fn len(&mut self) -> anyhow::Result<usize> {
+        unimplemented!()
+    }
+    #[cfg(test)]
+    fn is_empty(&mut self) -> anyhow::Result<bool> {
+        unimplemented!()
+    }
+    #[cfg(test)]
+    fn prefixed_by(
+        &mut self,
+        _prefix: &RecordIdentifier,
+    ) -> anyhow::Result<Self::RangeIterator<'_>> {
+        unimplemented!()
+    }
+    #[cfg(test)]
+    fn all(&mut self) -> anyhow::Result<Self::RangeIterator<'_>> {
+        unimplemented!()
+    }
+    #[cfg(test)]
+    fn entry_remove(&mut self, _key: &RecordIdentifier) -> anyhow::Result<Option<SignedEntry>> {
+        unimplemented!()
+    }
+}
+
+impl<B: MapBackend> Adapter<B> {
+    pub fn initial_message(&mut self) -> anyhow::Result<ProtocolMessage> {
+        ranger::Store::initial_message(self)
+    }
+    /// `Some(removed)` if inserted
+    pub fn put(&mut self, e: SignedEntry) -> anyhow::Result<Option<usize>> {
+        Ok(match ranger::Store::put(self, e)? {
+            InsertOutcome::Inserted { removed } => Some(removed),
+            InsertOutcome::NotInserted => None,
+        })
+    }
+    pub async fn process_message(
+        &mut self,
+        message: ProtocolMessage,
+    ) -> anyhow::Result<Option<ProtocolMessage>> {
+        ranger::Store::process_message(
+            self,
+            &SyncConfig::default(),
+            message,
+            |_, _, _| true,
+            async |_, _, _| (),
+            async |_| ContentStatus::Missing,
+        )
+        .await
+    }
+}
+
+// ---- forwards to the redb-backed storage primitives (for differential checks against an ordered map)
+use crate::{store::Store as DocStore, NamespaceId};
+
+/// Write a row without any validation or prefix handling (`StoreInstance::entry_put`).
+pub fn raw_entry_put(store: &mut DocStore, entry: SignedEntry) -> anyhow::Result<()> {
+    let ns = entry.namespace();
+    ranger::Store::entry_put(&mut crate::store::fs::StoreInstance::new(ns, store), entry)
+}
+/// The crate's own `ranger::Store::put` on the redb store, without validation.
+pub fn store_put(store: &mut DocStore, entry: SignedEntry) -> anyhow::Result<Option<usize>> {
+    let ns = entry.namespace();
+    Ok(
+        match ranger::Store::put(&mut crate::store::fs::StoreInstance::new(ns, store), entry)? {
+            InsertOutcome::Inserted { removed } => Some(removed),
+            InsertOutcome::NotInserted => None,
+        },
+    )
+}
+pub fn store_get_first(store: &mut DocStore, ns: NamespaceId) -> anyhow::Result<RecordIdentifier> {
+    ranger::Store::get_first(&mut crate::store::fs::StoreInstance::new(ns, store))
+}
+pub fn store_get_range(
+    store: &mut DocStore,
+    ns: NamespaceId,
+    x: RecordIdentifier,
+    y: RecordIdentifier,
+) -> anyhow::Result<Vec<SignedEntry>> {
+    let mut inst = crate::store::fs::StoreInstance::new(ns, store);
+    let iter = ranger::Store::get_range(&mut inst, Range::new(x, y))?;
+    iter.collect()
+}
+pub fn store_get_range_len(
+    store: &mut DocStore,
+    ns: NamespaceId,
+    x: RecordIdentifier,
+    y: RecordIdentifier,
+) -> anyhow::Result<usize> {
+    let mut inst = crate::store::fs::StoreInstance::new(ns, store);
+    ranger::Store::get_range_len(&mut inst, Range::new(x, y))
+}
+pub fn store_get_fingerprint(
+    store: &mut DocStore,
+    ns: NamespaceId,
+    x: RecordIdentifier,
+    y: RecordIdentifier,
+) -> anyhow::Result<[u8; 32]> {
+    let mut inst = crate::store::fs::StoreInstance::new(ns, store);
+    Ok(ranger::Store::get_fingerprint(&mut inst, &Range::new(x, y))?.0)
+}
+pub fn store_prefixes_of(
+    store: &mut DocStore,
+    ns: NamespaceId,
+    id: &RecordIdentifier,
+) -> anyhow::Result<Vec<SignedEntry>> {
+    let mut inst = crate::store::fs::StoreInstance::new(ns, store);
+    let iter = ranger::Store::prefixes_of(&mut inst, id)?;
+    iter.collect()
+}
+/// Removes entries prefixed by `id` for which `pred(timestamp, hash)` holds.
+pub fn store_remove_prefix_filtered(
+    store: &mut DocStore,
+    ns: NamespaceId,
+    id: &RecordIdentifier,
+    pred: &dyn Fn(u64, &[u8; 32]) -> bool,
+) -> anyhow::Result<usize> {
+    let mut inst = crate::store::fs::StoreInstance::new(ns, store);
+    ranger::Store::remove_prefix_filtered(&mut inst, id, |r: &Record| {
+        pred(r.timestamp(), r.content_hash().as_bytes())
+    })
+}
+/// The fingerprint of one entry / of the empty set, as the reconciliation routine computes it.
+pub fn entry_fingerprint(entry: &SignedEntry) -> [u8; 32] {
+    entry.as_fingerprint().0
+}
+pub fn empty_fingerprint() -> [u8; 32] {
+    Fingerprint::empty().0
+}
